@@ -51,7 +51,8 @@ def src_files():
 # translator tie: which hand-written proof files sit on which generated file (compiled in this order)
 SRC_ORDER = ['GenPrim', 'GenWidthP', 'GenPrimP', 'GenDiv', 'GenDivP', 'GenLoopP', 'GenIterP', 'GenUint', 'GenUintP', 'GenMod', 'GenModP',
              'GenShift', 'GenShiftP', 'GenMul', 'GenMulP', 'GenInt', 'GenIntP', 'GenDivLimb', 'GenDivLimbP', 'GenBits', 'GenBitsP', 'GenDivCt', 'GenDivCtP', 'GenMonty', 'GenMontyP', 'GenHex', 'GenHexP',
-             'GenSqrt', 'GenSqrtP', 'GenIntDiv', 'GenIntDivP', 'GenMulMod', 'GenMulModP', 'GenAmm', 'GenAmmP']
+             'GenSqrt', 'GenSqrtP', 'GenIntDiv', 'GenIntDivP', 'GenMulMod', 'GenMulModP', 'GenAmm', 'GenAmmP',
+             'GenSafeGcd', 'GenSafeGcdP', 'GenSafeGcdJumpP', 'GenSafeGcdBitsP', 'GenWrap', 'GenWrapP', 'GenCmp', 'GenCmpP', 'GenIntCmp', 'GenIntCmpP']
 # source-derived leakage model of C01 (tools/rs2v_leak.py): Leak<G>.v is generated next to Gen<G>.v, Leak<G>P.v is hand-written
 _LEAK_GROUPS = ['Prim', 'Div', 'Uint', 'Mod', 'Shift', 'Mul', 'Int', 'DivLimb', 'Monty', 'Hex', 'Bits', 'DivCt']
 _LEAK = ['LeakIterP'] + [x for g in _LEAK_GROUPS for x in ('Leak' + g, 'Leak' + g + 'P')]
@@ -71,6 +72,9 @@ SRC_NEEDS['C07'] = _PRIM + ['GenDiv', 'GenDivP', 'GenLoopP', 'GenIterP', 'GenUin
                      'GenInt', 'GenIntP', 'GenDivLimb', 'GenDivLimbP', 'GenMulMod', 'GenMulModP']
 SRC_NEEDS['C08'] = SRC_NEEDS['C08'] + ['GenAmm', 'GenAmmP']
 SRC_NEEDS['C14'] = _DIVCT + ['GenInt', 'GenIntP', 'GenIntDiv', 'GenIntDivP']
+SRC_NEEDS['C10'] = _PRIM + ['GenLoopP', 'GenIterP', 'GenUint', 'GenUintP', 'GenSafeGcd', 'GenSafeGcdP', 'GenSafeGcdJumpP', 'GenSafeGcdBitsP']
+SRC_NEEDS['C12'] = _UINT + ['GenShift', 'GenWrap', 'GenWrapP']
+SRC_NEEDS['C06'] = _DIVCT + ['GenInt', 'GenIntP', 'GenIntDiv', 'GenIntDivP', 'GenCmp', 'GenCmpP', 'GenIntCmp', 'GenIntCmpP']
 
 def src_tie(pid):
     """Translator tie (tools/rs2v.py): regenerate coq/Src/Gen*.v from REPO's current source, re-check the hand-written
